@@ -140,6 +140,7 @@ def _eval_single(cases):
         regular = True
         if op in LOC_OPS:
             Bc = _bc(case, A.dtype)
+            Bc0 = Bc.copy()
             if case.get('_hist'):
                 # the result is asked for in a caller's buffer that already holds marks (all True: a buffer reused from an
                 # earlier image): the extrema are what the definition says, not the union with what was there
@@ -150,6 +151,9 @@ def _eval_single(cases):
             else:
                 got = np.asarray(getattr(mh, op)(Al, Bc))
             g = [int(x) for x in got.ravel(order='C').tolist()]
+            if not np.array_equal(Bc0, Bc):
+                # `_remove_centre` works on a copy: the caller's structuring element keeps its centre
+                f.append(dict(kind='model', key=f'{op}:bc-modified', detail=dict(before=Bc0.ravel().tolist(), after=Bc.ravel().tolist())))
             regular = drv['regular'] == '1'     # the proved-sound checkers starShapedB && symNbB of the Lean model
             if regular != _symmetric_star(case):
                 f.append(dict(kind='model', key='regular-check-disagrees', detail=dict(lean=regular)))
@@ -169,7 +173,7 @@ def _eval_single(cases):
                     bad = [i for i, (a, b) in enumerate(zip(g, cspec)) if a != b]
                     f.append(dict(kind='model', key=f'{op}-clamped:{cls}', detail=dict(pixels=bad[:8], got=g, cspec=cspec)))
             elif drv.get('fix') != '1':
-                # the executable specification did not reach its fixed point (hypothesis of C14_regspec_eq_regional_partial)
+                # the executable specification did not reach its fixed point (impossible by C14_regspec_eq_regional: a driver sanity check)
                 f.append(dict(kind='model', key='regspec-not-fixed', detail={}))
             # the centre entry of Bc is irrelevant (C14_remove_centre_irrelevant): set / cleared / another non-zero value
             ci = _centre_index(case['bshape'])
